@@ -10,7 +10,7 @@ PROOF_FILES = [f for f in ['proofs/TraceProofs.v'] if os.path.exists(os.path.joi
 
 
 def main(tier, seed):
-    return icheck.run(PROP, tier, seed, genchart.Profile(p_contract=0.7, p_entry_code=0.5), ifam.ScenarioSpec(p_queue=0.4, p_bits=0.3, p_fail_bit=0.5), icheck.interest_c08, PROOF_FILES, assumptions=['conditions are side-effect free (WF8)'])
+    return icheck.run(PROP, tier, seed, genchart.Profile(p_contract=0.7, p_entry_code=0.5, use_objects=True), ifam.ScenarioSpec(p_queue=0.4, p_bits=0.3, p_fail_bit=0.5), icheck.interest_c08, PROOF_FILES, assumptions=['conditions are side-effect free (WF8)'])
 
 
 replay = icheck.replay
